@@ -111,8 +111,25 @@ func concatRendered(vals []any) string {
 				return "<mixed chunk types>"
 			}
 			for k, x := range m {
-				if _, dup := out[k]; dup {
-					return "<duplicate key " + k + ">"
+				if prev, dup := out[k]; dup {
+					// chunks of a keyed sub-graph: {k: {x: ..}} then {k: {y: ..}}: one level of nesting is merged key-wise
+					pm, ok1 := prev.(map[string]any)
+					xm, ok2 := x.(map[string]any)
+					if !ok1 || !ok2 {
+						return "<duplicate key " + k + ">"
+					}
+					nm := map[string]any{}
+					for kk, vv := range pm {
+						nm[kk] = vv
+					}
+					for kk, vv := range xm {
+						if _, dup2 := nm[kk]; dup2 {
+							return "<duplicate key " + k + "/" + kk + ">"
+						}
+						nm[kk] = vv
+					}
+					out[k] = nm
+					continue
 				}
 				out[k] = x
 			}
@@ -783,7 +800,9 @@ func (sp *spec) build() (func(), func(x *vsched.Exec) (string, error)) {
 			default:
 				result = "<" + sp.shape + ">"
 			}
-		case "nested":
+		case "nested", "nested-keyed":
+			// nested-keyed: the sub-graph node is added with an output key, so it runs behind a wrapper of its own
+			keyed := sp.shape == "nested-keyed"
 			sub := compose.NewGraph[gprog.Val, gprog.Val]()
 			sres := gprog.Val{}
 			for _, k := range []string{"x", "y"} {
@@ -796,7 +815,11 @@ func (sp *spec) build() (func(), func(x *vsched.Exec) (string, error)) {
 			}
 			g := compose.NewGraph[gprog.Val, gprog.Val]()
 			g.AddLambdaNode("a", lam("a", sp.yields), compose.WithNodeName("a"))
-			g.AddGraphNode("s", sub, compose.WithNodeName("s"))
+			if keyed {
+				g.AddGraphNode("s", sub, compose.WithNodeName("s"), compose.WithOutputKey("k"))
+			} else {
+				g.AddGraphNode("s", sub, compose.WithNodeName("s"))
+			}
 			for _, k := range []string{"a", "s"} {
 				g.AddEdge(compose.START, k)
 				g.AddEdge(k, compose.END)
@@ -805,8 +828,12 @@ func (sp *spec) build() (func(), func(x *vsched.Exec) (string, error)) {
 			units = append(units, unit{name: "a", start: in, end: gprog.Canon(aout), leaf: "a", comp: "Lambda"})
 			units = append(units, unit{name: "s", start: in, end: gprog.Canon(sres), isSub: true, comp: "Graph"})
 			res := gprog.Val{"a": aout["a"]}
-			for k, v := range sres {
-				res[k] = v
+			if keyed {
+				res["k"] = map[string]any(sres)
+			} else {
+				for k, v := range sres {
+					res[k] = v
+				}
 			}
 			units = append(units, unit{name: "G0", start: in, end: gprog.Canon(res), comp: "Graph"})
 			designateHelper("s", func(u unit) bool { return u.isSub || u.inSub })
@@ -1149,7 +1176,7 @@ func exec(ctx context.Context, r compose.Runnable[gprog.Val, gprog.Val], call st
 
 func main() {
 	c := harness.Init("C10")
-	c.Res.Rule = "scenario = graph shape (2 or 3 parallel lambdas, nested graph next to a lambda, tools node with two tool calls) x way of supplying handlers (global; 0-3 undesignated per-call handlers as ONE option or as SEPARATE options — the slice capacities differ; handlers designated to leaf nodes, to a sub-graph node, to an inner node by path, to the tools node) x handler kind (HandlerBuilder with timing checker / raw struct) x Invoke/Stream x what handlers do with stream payloads (drain, close at once, read one then close) x yields in node bodies x helper handler (none; ONE handler built with utils/callbacks.NewHandlerHelper out of typed Tool / ToolsNode / Retriever sub-handlers and Lambda / Graph sub-handlers, passed as one more per-call option, as a global handler, or designated to a node; sub-handler function sets full / pa / pb, the partial ones complementary: Tool with OnEnd only, a built Graph handler without stream functions, a Graph handler with ONLY stream functions, components without a sub-handler; extra shapes: a tool that fails, a tool that streams its answer); every interleaving of the executor goroutines, tool-call goroutines and the run loop within the preemption bound, both map orders; distinct/non-trivial = distinct scheduling signatures of scenarios with >= 2 of them"
+	c.Res.Rule = "scenario = graph shape (2 or 3 parallel lambdas, nested graph next to a lambda (also added with an output key), tools node with two tool calls) x way of supplying handlers (global; 0-3 undesignated per-call handlers as ONE option or as SEPARATE options — the slice capacities differ; handlers designated to leaf nodes, to a sub-graph node, to an inner node by path, to the tools node) x handler kind (HandlerBuilder with timing checker / raw struct) x Invoke/Stream x what handlers do with stream payloads (drain, close at once, read one then close) x yields in node bodies x helper handler (none; ONE handler built with utils/callbacks.NewHandlerHelper out of typed Tool / ToolsNode / Retriever sub-handlers and Lambda / Graph sub-handlers, passed as one more per-call option, as a global handler, or designated to a node; sub-handler function sets full / pa / pb, the partial ones complementary: Tool with OnEnd only, a built Graph handler without stream functions, a Graph handler with ONLY stream functions, components without a sub-handler; extra shapes: a tool that fails, a tool that streams its answer); every interleaving of the executor goroutines, tool-call goroutines and the run loop within the preemption bound, both map orders; distinct/non-trivial = distinct scheduling signatures of scenarios with >= 2 of them"
 	c.Res.Assumptions = []string{
 		"sequential consistency at synchronisation granularity; node bodies are atomic between their explicit yields, framework code between two synchronisation operations is atomic",
 		"no happens-before state caching here: the shared mutable state this property is about (handler slices) is plain memory",
@@ -1164,7 +1191,7 @@ func main() {
 	if !quick {
 		bounds = []int{0, 1, 2, 3}
 	}
-	shapes := []string{"fan2", "nested", "tools", "interrupt", "tools-unknown", "sharedlambda", "start-end", "before-first", "start-branch-fails", "retrievers", "fan3", "tools-fail", "tools-stream"}
+	shapes := []string{"fan2", "nested", "tools", "interrupt", "tools-unknown", "sharedlambda", "start-end", "before-first", "start-branch-fails", "retrievers", "fan3", "tools-fail", "tools-stream", "nested-keyed"}
 	type hmode struct{ where, variant string }
 	hmodes := []hmode{{}}
 	for _, where := range []string{"call", "global", "node"} {
@@ -1176,6 +1203,9 @@ func main() {
 		desigs := []string{"", "leaves"}
 		if shape == "nested" {
 			desigs = []string{"", "leaves", "sub", "path"}
+		}
+		if shape == "nested-keyed" {
+			desigs = []string{"sub", "path"}
 		}
 		for _, desig := range desigs {
 			for undes := 0; undes <= 3; undes++ {
@@ -1213,7 +1243,7 @@ func main() {
 										if helper && raw && hm.variant != "full" {
 											continue // the partial sub-handlers are built handlers in any case
 										}
-										small := shape == "tools-unknown" || shape == "sharedlambda" || shape == "retrievers" || firstStep || shape == "tools-fail" || shape == "tools-stream"
+										small := shape == "tools-unknown" || shape == "sharedlambda" || shape == "retrievers" || firstStep || shape == "tools-fail" || shape == "tools-stream" || shape == "nested-keyed"
 										if quick && small && !(undes <= 1 && !raw && (mod == "drain" || helper)) {
 											continue
 										}
